@@ -394,3 +394,10 @@ Print Assumptions literal_action_l.
 Print Assumptions compose_nth_l.
 Print Assumptions driver_main_only_l.
 Print Assumptions empty_stage_l.
+
+(* ------------------------------------------------------------------ the literal a rule is chained by *)
+(* the REGENERATED condition and length of passFindCharacters are the ones of the reference (litlen_aux): a literal is
+   taken when it is longer than the pending look-back, with the part behind the look-back as its length *)
+Lemma passfind_is_the_reference_l : forall count lookback,
+  passfind_takes count lookback = (count >? lookback) /\ passfind_length count lookback = count - lookback.
+Proof. intros count lookback. unfold passfind_takes, passfind_length. split; reflexivity. Qed.
